@@ -502,7 +502,7 @@ func init() {
 				n = (len(g.Trees)+c14Chunk-1)/c14Chunk + (len(g.Layers)+999)/1000 + (len(g.Order)+999)/1000 + 1
 			}
 			if tier == "quick" {
-				return n + 6000
+				return n + 12000
 			}
 			return n + 1000000
 		},
